@@ -258,7 +258,7 @@ func runSysPlug(x *X) {
 		}
 		// now and then a body around the gzip plugin's 10 MB buffering cap
 		capCase := false
-		capOdds := 150 // (quick tier: a few dozen 10 MB bodies per check)
+		capOdds := 100 // (quick tier: a few dozen 10 MB bodies per check)
 		if x.Tier == "thorough" {
 			capOdds = 25
 		}
@@ -266,6 +266,9 @@ func runSysPlug(x *X) {
 			n = 10*1024*1024 - 2 + []int{0, 1, 2, 3, 4, 3, 4, 4096}[c.Intn(8, "cap-delta")]
 			capCase = true
 			x.Probe("around-10MB-cap")
+			if c.Intn(2, "cap-status") == 1 {
+				rs.status = []int{201, 404, 500, 206}[c.Intn(4, "cap-status-code")] // (big answers are not all 200s)
+			}
 		}
 		if largeCase && !capCase {
 			n = []int{64 << 10, 256 << 10, 1 << 20, 2 << 20, 4 << 20}[c.Intn(5, "large-size")] + []int{-1, 0, 1, 4096}[c.Intn(4, "large-delta")]
@@ -450,6 +453,11 @@ func runSysPlug(x *X) {
 					if kv.K == "Content-Type" && strings.HasPrefix(strings.ToLower(kv.V), "text/event-stream") {
 						eventStream = true
 					}
+				}
+				// a 413 is an answer like any other: the client must be able to read it to its end
+				// (what it declares is what it delivers), however small the configured limit is
+				if got.status == 413 && got.err != "" && ex.method != "HEAD" {
+					x.Violate("C14", "C14/413-answer-malformed", "exchange %d: the 413 for an oversized response (max_response_body=%d) cannot be read completely: %d body bytes, Content-Length %q, then %s", ex.id, L2, len(got.body), got.hdr.Get("Content-Length"), got.err)
 				}
 				if !fragment && first > L2 && len(rs.body) <= 3000 && !wantGzip && rs.framing == "cl" && !eventStream && got.status != 413 {
 					x.Violate("C14", "C14/oversized-response-not-413", "exchange %d: the first response write (%d bytes) already exceeds max_response_body=%d, client got status %d with %d bytes", ex.id, first, L2, got.status, len(got.body))
